@@ -244,7 +244,10 @@ func init() {
 				}
 			}()
 			nrecv := n + 2
-			l.N(nrecv).S("|").S(sendClass).B(conn.Written())
+			// pipelined use: further calls are sent between the receives of the first one; what the reader has
+			// already buffered belongs to the receives still to come and must not be touched by a Send
+			pipelined := g0.Chance(1, 2)
+			l.N(nrecv).Bool(pipelined).S("|").S(sendClass).B(conn.Written())
 			var obs []recvObs
 			if sendClass == "ok" {
 				for k := 0; k < nrecv; k++ {
@@ -255,6 +258,9 @@ func init() {
 								o = recvObs{kind: "panic"}
 							}
 						}()
+						if pipelined && k > 0 {
+							c.Send(ctx, "org.example.a.Next", nil, 0)
+						}
 						var out json.RawMessage
 						fl, err := receive(ctx, &out)
 						o = classifyRecv(fl, err, out)
